@@ -908,4 +908,384 @@ theorem symStep_consLabels (first last : Nat) (s : SymState) (i : Nat) :
     · exact symPull_consLabels first last s i true
     · rw [symPull_consLabels, symPull_consLabels]
 
+/-! ### how the parent of a token changes when another token is moved -/
+
+theorem eq_of_nodup_flatMap {α β} (f : α → List β) : ∀ (l : List α), (l.flatMap f).Nodup →
+    ∀ a ∈ l, ∀ b ∈ l, ∀ x, x ∈ f a → x ∈ f b → a = b
+  | [], _, a, ha, _, _, _, _, _ => by simp at ha
+  | y :: ys, hn, a, ha, b, hb, x, hxa, hxb => by
+    simp only [List.flatMap_cons, List.nodup_append] at hn
+    rcases List.mem_cons.1 ha with rfl | ha' <;> rcases List.mem_cons.1 hb with rfl | hb'
+    · rfl
+    · exact absurd rfl (hn.2.2 x hxa x (List.mem_flatMap.2 ⟨b, hb', hxb⟩))
+    · exact absurd rfl (hn.2.2 x hxb x (List.mem_flatMap.2 ⟨a, ha', hxa⟩))
+    · exact eq_of_nodup_flatMap f ys hn.2.1 a ha' b hb' x hxa hxb
+
+theorem hasKid_removeLeafL (a c : Nat) (h : a ≠ c) : (ks : List Tree) →
+    hasKid a (removeLeafL c ks) = hasKid a ks
+  | [] => by simp [removeLeafL]
+  | .leaf n f :: ts => by
+    by_cases hn : n = c
+    · subst hn
+      have : (n == a) = false := by simpa using fun e => h e.symm
+      simp [removeLeafL, hasKid, this]
+    · have ih := hasKid_removeLeafL a c h ts
+      simp only [hasKid] at ih
+      simp [removeLeafL, hn, hasKid, ih]
+  | .node f ks :: ts => by
+    have ih := hasKid_removeLeafL a c h ts
+    simp only [hasKid] at ih
+    simp [removeLeafL, hasKid, ih]
+
+theorem appendBeside_num (j : Nat) (x t : Tree) : (appendBeside j x t).num = t.num := by
+  cases t with
+  | leaf n f => simp [appendBeside]
+  | node f ks => simp only [appendBeside]; split <;> rfl
+
+theorem appendBeside_fields (j : Nat) (x t : Tree) : (appendBeside j x t).fields = t.fields := by
+  cases t with
+  | leaf n f => simp [appendBeside]
+  | node f ks => simp only [appendBeside]; split <;> rfl
+
+theorem appendBesideL_eq_map (j : Nat) (x : Tree) : ∀ ks : List Tree,
+    appendBesideL j x ks = ks.map (appendBeside j x)
+  | [] => by simp [appendBesideL]
+  | t :: ts => by simp [appendBesideL, appendBesideL_eq_map j x ts]
+
+theorem hasKid_appendBesideL (a j : Nat) (x : Tree) (ks : List Tree) :
+    hasKid a (appendBesideL j x ks) = hasKid a ks := by
+  simp [hasKid, appendBesideL_eq_map, List.any_map, Function.comp_def, appendBeside_isLeaf,
+    appendBeside_num]
+
+theorem hasKid_append_leaf (a m : Nat) (g : Fields) (ks : List Tree) :
+    hasKid a (ks ++ [leaf m g]) = (hasKid a ks || m == a) := by
+  simp [hasKid]
+
+theorem parentOfLeafL_append_leaf (a m : Nat) (g : Fields) : (ks : List Tree) →
+    parentOfLeafL a (ks ++ [leaf m g]) = parentOfLeafL a ks
+  | [] => by simp [parentOfLeafL, parentOfLeaf]
+  | t :: ts => by
+    simp only [List.cons_append, parentOfLeafL, parentOfLeafL_append_leaf a m g ts]
+
+/-- the parent found below `ks` only contains tokens of `ks` -/
+theorem parentOfLeafL_leafNums_subset (a : Nat) (ks : List Tree) (p : Tree)
+    (h : parentOfLeafL a ks = some p) : ∃ k ∈ ks, k.isLeaf = false ∧ ∀ n ∈ p.leafNums, n ∈ k.leafNums := by
+  obtain ⟨k, hk, hp⟩ := parentOfLeafL_eq_some a ks p h
+  refine ⟨k, hk, ?_, ?_⟩
+  · cases k with
+    | leaf n f => simp [parentOfLeaf] at hp
+    | node f ks => rfl
+  · intro n hn
+    obtain ⟨l, hl, rfl⟩ := List.mem_map.1 hn
+    exact List.mem_map.2 ⟨l, leaves_subset_of_mem_subtrees k p (parentOfLeaf_spec a k p hp).1 l hl, rfl⟩
+
+theorem leafNumsL_eq (ks : List Tree) : (leavesL ks).map num = ks.flatMap leafNums := by
+  rw [leavesL_eq, List.map_flatMap]; rfl
+
+mutual
+theorem parentOfLeaf_removeLeaf (a c : Nat) (hac : a ≠ c) : (t : Tree) → t.leafNums.Nodup →
+    parentOfLeaf a (removeLeaf c t) = (parentOfLeaf a t).map (removeLeaf c)
+  | .leaf n f, _ => by simp [removeLeaf, parentOfLeaf]
+  | .node f ks, hn => by
+    have hk := hasKid_removeLeafL a c hac ks
+    simp only [hasKid] at hk
+    simp only [removeLeaf, parentOfLeaf, hk]
+    split
+    · simp [removeLeaf]
+    · exact parentOfLeafL_removeLeafL a c hac ks hn
+theorem parentOfLeafL_removeLeafL (a c : Nat) (hac : a ≠ c) : (ks : List Tree) →
+    ((leavesL ks).map num).Nodup →
+    parentOfLeafL a (removeLeafL c ks) = (parentOfLeafL a ks).map (removeLeaf c)
+  | [], _ => by simp [removeLeafL, parentOfLeafL]
+  | .leaf n f :: ts, hn => by
+    simp only [leavesL, leaves, List.singleton_append, List.map_cons, List.nodup_cons, num_leaf] at hn
+    by_cases hnc : n = c
+    · subst hnc
+      simp only [removeLeafL, ↓reduceIte, parentOfLeafL, parentOfLeaf]
+      cases hp : parentOfLeafL a ts with
+      | none => rfl
+      | some p =>
+        obtain ⟨k, hk, _, hsub⟩ := parentOfLeafL_leafNums_subset a ts p hp
+        have : n ∉ p.leafNums := by
+          intro h
+          refine hn.1 ?_
+          rw [leafNumsL_eq]
+          exact List.mem_flatMap.2 ⟨k, hk, hsub n h⟩
+        simp [removeLeaf_of_not_mem n p this]
+    · simp only [removeLeafL, hnc, ↓reduceIte, parentOfLeafL, parentOfLeaf]
+      exact parentOfLeafL_removeLeafL a c hac ts hn.2
+  | .node f ks :: ts, hn => by
+    simp only [leavesL, leaves, List.map_append, List.nodup_append] at hn
+    have h1 := parentOfLeaf_removeLeaf a c hac (node f ks) hn.1
+    have h2 := parentOfLeafL_removeLeafL a c hac ts hn.2.1
+    simp only [removeLeaf] at h1
+    simp only [removeLeafL, parentOfLeafL, h1]
+    cases parentOfLeaf a (node f ks) with
+    | some p => rfl
+    | none => exact h2
+end
+
+mutual
+theorem parentOfLeaf_appendBeside (a j m : Nat) (g : Fields) (hma : m ≠ a) : (t : Tree) →
+    t.leafNums.Nodup →
+    parentOfLeaf a (appendBeside j (leaf m g) t) = (parentOfLeaf a t).map (appendBeside j (leaf m g))
+  | .leaf n f, _ => by simp [appendBeside, parentOfLeaf]
+  | .node f ks, hn => by
+    cases hj : hasKid j ks with
+    | true =>
+      have e : appendBeside j (leaf m g) (node f ks) = node f (ks ++ [leaf m g]) := by
+        simp only [appendBeside]; rw [if_pos hj]
+      rw [e]
+      have hk := hasKid_append_leaf a m g ks
+      have hma' : (m == a) = false := by simpa using hma
+      rw [hma', Bool.or_false] at hk
+      simp only [hasKid] at hk
+      simp only [parentOfLeaf, hk]
+      split
+      · simp [e]
+      · rw [parentOfLeafL_append_leaf]
+        cases hp : parentOfLeafL a ks with
+        | none => rfl
+        | some p =>
+          obtain ⟨k, hk, hkl, hsub⟩ := parentOfLeafL_leafNums_subset a ks p hp
+          obtain ⟨g', hg'⟩ := (hasKid_iff j ks).1 hj
+          have : j ∉ p.leafNums := by
+            intro h
+            rw [leafNums_node] at hn
+            have := eq_of_nodup_flatMap leafNums ks hn k hk _ hg' j (hsub j h) (by simp [leafNums_leaf])
+            rw [this] at hkl
+            simp at hkl
+          simp [appendBeside_of_not_mem j _ p this]
+    | false =>
+      have e : appendBeside j (leaf m g) (node f ks) = node f (appendBesideL j (leaf m g) ks) := by
+        simp only [appendBeside]; rw [if_neg (by simpa using hj)]
+      rw [e]
+      have hk := hasKid_appendBesideL a j (leaf m g) ks
+      simp only [hasKid] at hk
+      simp only [parentOfLeaf, hk]
+      split
+      · simp [e]
+      · exact parentOfLeafL_appendBesideL a j m g hma ks hn
+theorem parentOfLeafL_appendBesideL (a j m : Nat) (g : Fields) (hma : m ≠ a) : (ks : List Tree) →
+    ((leavesL ks).map num).Nodup →
+    parentOfLeafL a (appendBesideL j (leaf m g) ks) =
+      (parentOfLeafL a ks).map (appendBeside j (leaf m g))
+  | [], _ => by simp [appendBesideL, parentOfLeafL]
+  | t :: ts, hn => by
+    simp only [leavesL, List.map_append, List.nodup_append] at hn
+    have h1 := parentOfLeaf_appendBeside a j m g hma t hn.1
+    have h2 := parentOfLeafL_appendBesideL a j m g hma ts hn.2.1
+    simp only [appendBesideL, parentOfLeafL, h1]
+    cases parentOfLeaf a t with
+    | some p => rfl
+    | none => exact h2
+end
+
+/-- after the move, the token `m` sits below the parent of `j` -/
+theorem parentOfLeaf_appendBeside_self (j m : Nat) (g : Fields) (hmj : m ≠ j) (t p : Tree)
+    (hn : t.leafNums.Nodup) (hp : parentOfLeaf j t = some p) :
+    ∃ f ks, p = node f ks ∧
+      parentOfLeaf j (appendBeside j (leaf m g) t) = some (node f (ks ++ [leaf m g])) := by
+  obtain ⟨_, f, ks, rfl, hk⟩ := parentOfLeaf_spec j t p hp
+  refine ⟨f, ks, rfl, ?_⟩
+  rw [parentOfLeaf_appendBeside j j m g hmj t hn, hp]
+  simp only [Option.map_some, appendBeside]
+  rw [if_pos hk]
+
+theorem parentOfLeaf_appendToRoot (a m : Nat) (g : Fields) (hma : m ≠ a) (f : Fields) (ks : List Tree) :
+    parentOfLeaf a (appendToRoot (node f ks) (leaf m g)) =
+      if hasKid a ks then some (node f (ks ++ [leaf m g])) else parentOfLeafL a ks := by
+  have hk := hasKid_append_leaf a m g ks
+  have hma' : (m == a) = false := by simpa using hma
+  rw [hma', Bool.or_false] at hk
+  simp only [hasKid] at hk
+  simp only [appendToRoot, parentOfLeaf, hk, parentOfLeafL_append_leaf]
+
+/-! ### `sameParent` / parent paths -/
+
+theorem parentPathOfLeafL_ne_nil (j : Nat) : ∀ (ks : List Tree) (n : Nat) (q : Path),
+    parentPathOfLeafL j ks n = some q → ∃ m r, q = m :: r ∧ n ≤ m
+  | [], _, _, h => by simp [parentPathOfLeafL] at h
+  | t :: ts, n, q, h => by
+    simp only [parentPathOfLeafL] at h
+    split at h
+    · cases h; exact ⟨n, _, rfl, Nat.le_refl _⟩
+    · obtain ⟨m, r, hq, hm⟩ := parentPathOfLeafL_ne_nil j ts (n + 1) q h
+      exact ⟨m, r, hq, by omega⟩
+
+/-- the parent is the root iff the root directly contains the token -/
+theorem parentPath_eq_nil_iff (j : Nat) (f : Fields) (ks : List Tree) :
+    (parentPathOfLeaf j (node f ks) == some []) = hasKid j ks := by
+  simp only [parentPathOfLeaf]
+  split
+  · rename_i h; simp [hasKid, h]
+  · rename_i h
+    have hk : hasKid j ks = false := by simpa using h
+    rw [hk]
+    cases hq : parentPathOfLeafL j ks 0 with
+    | none => rfl
+    | some q =>
+      obtain ⟨m, r, rfl, _⟩ := parentPathOfLeafL_ne_nil j ks 0 q hq
+      simp
+
+mutual
+theorem parentPath_isSome_iff (j : Nat) : (t : Tree) →
+    (parentPathOfLeaf j t).isSome = (parentOfLeaf j t).isSome
+  | .leaf n f => by simp [parentPathOfLeaf, parentOfLeaf]
+  | .node f ks => by
+    simp only [parentPathOfLeaf, parentOfLeaf]
+    split
+    · rfl
+    · exact parentPathL_isSome_iff j ks 0
+theorem parentPathL_isSome_iff (j : Nat) : (ks : List Tree) → (n : Nat) →
+    (parentPathOfLeafL j ks n).isSome = (parentOfLeafL j ks).isSome
+  | [], _ => by simp [parentPathOfLeafL, parentOfLeafL]
+  | t :: ts, n => by
+    have h1 := parentPath_isSome_iff j t
+    have h2 := parentPathL_isSome_iff j ts (n + 1)
+    simp only [parentPathOfLeafL, parentOfLeafL]
+    cases hq : parentPathOfLeaf j t with
+    | some q =>
+      rw [hq] at h1
+      cases hp : parentOfLeaf j t with
+      | some p => rfl
+      | none => rw [hp] at h1; simp at h1
+    | none =>
+      rw [hq] at h1
+      cases hp : parentOfLeaf j t with
+      | some p => rw [hp] at h1; simp at h1
+      | none => exact h2
+end
+
+theorem hasKid_false_of_not_mem (b : Nat) (p : Tree) (h : b ∉ p.leafNums) : hasKid b p.kids = false := by
+  cases hh : hasKid b p.kids with
+  | false => rfl
+  | true =>
+    exfalso
+    cases p with
+    | leaf n f => simp at hh
+    | node f ks => exact h (hasKid_mem_leafNumsL b ks hh)
+
+mutual
+/-- two tokens have the same parent path iff the parent of the first directly contains the second -/
+theorem sameParent_iff (a b : Nat) : (t : Tree) → t.leafNums.Nodup → ∀ p, parentOfLeaf a t = some p →
+    (parentPathOfLeaf a t == parentPathOfLeaf b t) = hasKid b p.kids
+  | .leaf n f, _, p, hp => by simp [parentOfLeaf] at hp
+  | .node f ks, hn, p, hp => by
+    simp only [parentOfLeaf] at hp
+    simp only [parentPathOfLeaf]
+    split at hp
+    · rename_i ha
+      cases hp
+      rw [if_pos ha]
+      simp only [kids_node]
+      cases hb : hasKid b ks with
+      | true => rw [if_pos hb]; simp
+      | false =>
+        rw [if_neg (by simpa using hb)]
+        cases hq : parentPathOfLeafL b ks 0 with
+        | none => rfl
+        | some q =>
+          obtain ⟨m, r, rfl, _⟩ := parentPathOfLeafL_ne_nil b ks 0 q hq
+          simp
+    · rename_i ha
+      rw [if_neg ha]
+      cases hb : hasKid b ks with
+      | true =>
+        rw [if_pos hb]
+        obtain ⟨k, hk, hkl, hsub⟩ := parentOfLeafL_leafNums_subset a ks p hp
+        obtain ⟨g', hg'⟩ := (hasKid_iff b ks).1 hb
+        have hbp : b ∉ p.leafNums := by
+          intro h
+          rw [leafNums_node] at hn
+          have := eq_of_nodup_flatMap leafNums ks hn k hk _ hg' b (hsub b h) (by simp [leafNums_leaf])
+          rw [this] at hkl
+          simp at hkl
+        rw [hasKid_false_of_not_mem b p hbp]
+        cases hq : parentPathOfLeafL a ks 0 with
+        | none => rfl
+        | some q =>
+          obtain ⟨m, r, rfl, _⟩ := parentPathOfLeafL_ne_nil a ks 0 q hq
+          simp
+      | false =>
+        rw [if_neg (by simpa using hb)]
+        exact sameParentL_iff a b ks 0 hn p hp
+theorem sameParentL_iff (a b : Nat) : (ks : List Tree) → (n : Nat) → ((leavesL ks).map num).Nodup →
+    ∀ p, parentOfLeafL a ks = some p →
+    (parentPathOfLeafL a ks n == parentPathOfLeafL b ks n) = hasKid b p.kids
+  | [], _, _, p, hp => by simp [parentOfLeafL] at hp
+  | t :: ts, n, hn, p, hp => by
+    simp only [leavesL, List.map_append, List.nodup_append] at hn
+    simp only [parentOfLeafL] at hp
+    simp only [parentPathOfLeafL]
+    have hsome := parentPath_isSome_iff a t
+    cases hpa : parentOfLeaf a t with
+    | some p' =>
+      rw [hpa] at hp hsome
+      cases hp
+      have ih := sameParent_iff a b t hn.1 p hpa
+      cases hqa : parentPathOfLeaf a t with
+      | none => rw [hqa] at hsome; simp at hsome
+      | some qa =>
+        rw [hqa] at ih
+        simp only
+        cases hqb : parentPathOfLeaf b t with
+        | some qb =>
+          rw [hqb] at ih
+          simp only
+          rw [← ih]
+          simp
+        | none =>
+          rw [hqb] at ih
+          simp only
+          rw [← ih]
+          cases hq : parentPathOfLeafL b ts (n + 1) with
+          | none => rfl
+          | some q =>
+            obtain ⟨m, r, rfl, hm⟩ := parentPathOfLeafL_ne_nil b ts (n + 1) q hq
+            have : ¬ n = m := by omega
+            simp [this]
+    | none =>
+      rw [hpa] at hp hsome
+      simp only at hp
+      cases hqa : parentPathOfLeaf a t with
+      | some qa => rw [hqa] at hsome; simp at hsome
+      | none =>
+        simp only
+        cases hqb : parentPathOfLeaf b t with
+        | some qb =>
+          simp only
+          -- `b` lies below `t`, the parent of `a` below `ts`
+          have hbt : b ∈ t.leafNums := by
+            have h1 := parentPath_isSome_iff b t
+            rw [hqb] at h1
+            cases hpb : parentOfLeaf b t with
+            | none => rw [hpb] at h1; simp at h1
+            | some pb => exact (parentOfLeaf_mem_leafNums b t pb hpb).1
+          obtain ⟨k, hk, _, hsub⟩ := parentOfLeafL_leafNums_subset a ts p hp
+          have hbp : b ∉ p.leafNums := by
+            intro h
+            refine hn.2.2 b hbt b ?_ rfl
+            rw [leafNumsL_eq]
+            exact List.mem_flatMap.2 ⟨k, hk, hsub b h⟩
+          rw [hasKid_false_of_not_mem b p hbp]
+          cases hq : parentPathOfLeafL a ts (n + 1) with
+          | none => rfl
+          | some q =>
+            obtain ⟨m, r, rfl, hm⟩ := parentPathOfLeafL_ne_nil a ts (n + 1) q hq
+            have : ¬ m = n := by omega
+            simp [this]
+        | none =>
+          simp only
+          exact sameParentL_iff a b ts (n + 1) hn.2.1 p hp
+end
+
+theorem sameParent_eq (t : Tree) (a b : Nat) (hn : t.leafNums.Nodup) (p : Tree)
+    (hp : parentOfLeaf a t = some p) : sameParent t a b = hasKid b p.kids :=
+  sameParent_iff a b t hn p hp
+
+theorem sameParent_comm (t : Tree) (a b : Nat) : sameParent t a b = sameParent t b a := by
+  unfold sameParent
+  exact Bool.eq_iff_iff.2 (by simp [eq_comm])
+
 end TT.Lemmas.Punct
